@@ -799,8 +799,18 @@ def vptr_script(rng, sid, policies, n=None):
     s = S.Script(sid, [[p] for p in policies])
     for k, c in enumerate(chain):
         s.node(k, c)
-    for c, bases in S.presentation(rng.choice(["direct", "complete"]), classes, edges, rng):
-        s.cls(c, bases)
+    # some leaf classes outside the chain are registered only later: the later updates then change the
+    # set of type ids (rehash, reallocation of the pointer vectors), not only the methods
+    leaves = [c for c in classes if c not in chain and not any(c in anc[x] and x != c for x in classes)]
+    late = set(rng.sample(leaves, rng.randrange(0, len(leaves) + 1))) if leaves else set()
+    style = rng.choice(["direct", "complete"])
+    late_recs = []
+    for c, bases in S.presentation(style, classes, edges, rng):
+        if c in late:
+            late_recs.append((c, bases))
+        else:
+            s.cls(c, bases)
+    cov = {c: [x for x in cov[c] if x not in late] for c in classes}
     root = rng.choice(sorted(anc[chain[0]]))
     # methods whose virtual parameters are virtual_ptr / const virtual_ptr& / virtual_shared_ptr
     mdefs = [(1, "P", [root]), (2, "R", [root]), (3, "Q", [root]), (4, "RNP", [root, root]), (5, "QQ", [root, root])]
@@ -872,9 +882,17 @@ def vptr_script(rng, sid, policies, n=None):
                 del handles[h]
             else:
                 use()
-        # an update that moves things: a new method (slots change), then everything is used again
-        if extra:
+        # an update that moves things: a new method (slots change) and / or newly registered classes
+        # (new type ids: the hash and the pointer vectors change), then everything is used again
+        if extra and rng.random() < 0.7:
             declare(*extra.pop(0))
+        for _ in range(rng.randrange(0, 3)):
+            if late_recs:
+                c, bases = late_recs.pop()
+                s.cls(c, bases)
+                for v in classes:
+                    if v in anc[c]:
+                        cov[v] = cov[v] + [c]
         s.update()
         for _ in range(rng.randrange(2, 6)):
             use()
@@ -1262,4 +1280,120 @@ def check_C05(tier, seed):
                     extra_cov={"policies": pols, "sampled_outcomes": counts})
 
 
-CHECKS = {"C05": check_C05, "C18": check_C18, "C09": check_C09, "C15": check_C15, "C07": check_C07, "C10": check_C10, "C14": check_C14, "C04": check_C04, "C08": check_C08, "C01": check_C01, "C02": check_C02, "C03": check_C03, "C06": check_C06, "C17": check_C17}
+# ---------------------------------------------------------------------------
+FUNDAMENTAL = ["void", "bool", "char", "int", "float", "double", "short", "long", "signed char", "unsigned int", "unsigned long",
+               "long long", "unsigned char", "long double", "wchar_t", "char16_t", "char32_t"]
+STD_ENTITIES = ["std::string", "std::size_t", "std::ostream", "std::type_info", "std::nullptr_t"]
+STD_TEMPLATES = ["std::vector", "std::shared_ptr", "std::unique_ptr", "std::pair", "std::map", "std::function"]
+YOREL_TEMPLATES = ["yorel::yomm2::virtual_", "yorel::yomm2::virtual_ptr", "yorel::yomm2::method"]
+YOREL_ENTITIES = ["yorel::yomm2::policy::debug", "yorel::yomm2::default_policy"]
+
+
+def gen_type(rng, classes, templates, depth, used):
+    """A type description from the grammar: class names, fundamental types, pointers, references,
+    templates with arguments, function types, std:: and yorel:: entities.  `used` collects the class
+    names (not template names) put in: these are the names that must be kept."""
+    x = rng.random()
+    if depth <= 0 or x < 0.30:
+        c = rng.choice(classes)
+        used.add(c)
+        return c
+    if x < 0.45:
+        return rng.choice(FUNDAMENTAL)
+    if x < 0.52:
+        return rng.choice(STD_ENTITIES + YOREL_ENTITIES)
+    if x < 0.64:
+        return gen_type(rng, classes, templates, depth - 1, used) + rng.choice(["*", "&", "&&", "**", "*&"])
+    if x < 0.86:
+        t = rng.choice(STD_TEMPLATES + YOREL_TEMPLATES + templates)
+        args = [gen_type(rng, classes, templates, depth - 1, used) for _ in range(rng.randrange(1, 4))]
+        sp = rng.choice(["", "", " "])
+        inner = ", ".join(args)
+        if inner.endswith(">"):
+            inner += rng.choice(["", " "])
+        return "%s%s<%s>" % (t, sp, inner)
+    ret = gen_type(rng, classes, templates, depth - 1, used)
+    params = [gen_type(rng, classes, templates, depth - 1, used) for _ in range(rng.randrange(0, 4))]
+    return "%s (%s)" % (ret, ", ".join(params)) if rng.random() < 0.6 else "%s (*)(%s)" % (ret, ", ".join(params))
+
+
+def random_qname(rng, idents, maxdepth):
+    return "::".join(rng.choice(idents) for _ in range(rng.randrange(1, maxdepth + 1)))
+
+
+def check_C19(tier, seed):
+    t0 = time.time()
+    out = F.Outcome("C19")
+    rng = random.Random(seed)
+    exe = C.build_simple("fwd", "fwd.cpp")
+    MOD, TCFG = "TraceFwd.tla", "TraceFwd.cfg"
+    # mechanism model: the writer's prefix bookkeeping is well formed on every name set of the universe
+    F.model_check(out, "FwdDecl.tla", "FwdDecl_broken.cfg", expect_violation=True)
+    r = C.tlc_model("FwdDecl.tla", "FwdDecl_mid.cfg")
+    out.model_states += r.generated
+    out.model_distinct += r.distinct
+    sets = r.printed()
+    out.model_runs.append({"module": "FwdDecl.tla", "cfg": "FwdDecl_mid.cfg", "generated": r.generated, "distinct": r.distinct, "emitted": len(sets), "ok": r.ok})
+    if not r.ok:
+        raise F.ModelViolation("FwdDecl.tla", "FwdDecl_mid.cfg", r.out)
+    if tier == "thorough":
+        F.model_check(out, "FwdDecl.tla", "FwdDecl_mid4.cfg", timeout=3000)
+        F.model_check(out, "FwdDecl.tla", "FwdDecl_big.cfg", timeout=3000)
+    scs = []
+    for i, s in enumerate(sets):
+        names = ["".join(chars) for chars in s["names"]]
+        scs.append(F.RawScript("set%d" % i, ["n " + n for n in names]))
+    F.execute_and_validate("C19", exe, scs, out, "c19-sets", TCFG, trace_module=MOD)
+    # V: larger random sets, identifiers that are string prefixes of one another, depth <= 6
+    idents = ["a", "ab", "abc", "b", "ba", "a1", "a_b", "Ab", "x", "xy", "N", "Ns", "ns", "ns1", "detail"]
+    rs = []
+    for i in range(400 if tier == "quick" else 8000):
+        n = rng.randrange(1, 41)
+        names = sorted({random_qname(rng, idents, 6) for _ in range(n)})
+        rng.shuffle(names)
+        rs.append(F.RawScript("rnd%d" % i, ["n " + x for x in names]))
+    F.execute_and_validate("C19", exe, rs, out, "c19-rnd", TCFG, trace_module=MOD)
+    # extraction from type descriptions
+    xs = []
+    for i in range(600 if tier == "quick" else 12000):
+        classes = sorted({random_qname(rng, idents + ["Animal", "Dog", "key", "Matrix"], 3) for _ in range(rng.randrange(1, 6))})
+        classes = [c for c in classes if not c.startswith("std") and not c.startswith("yorel")]
+        templates = [random_qname(rng, ["tpl", "Box", "ns", "a"], 2) + "_t" for _ in range(2)]
+        used = set()
+        lines = []
+        for _ in range(rng.randrange(1, 4)):
+            lines.append("t " + gen_type(rng, classes, templates, rng.randrange(1, 5), used))
+        lines += ["k " + c for c in sorted(used)]
+        xs.append(F.RawScript("ext%d" % i, lines))
+    F.execute_and_validate("C19", exe, xs, out, "c19-ext", TCFG, trace_module=MOD)
+
+    def drop_close(ev):
+        for i, t in enumerate(ev["tokens"]):
+            if t[0] == "c":
+                del ev["tokens"][i]
+                return True
+        return False
+
+    def rename(ev):
+        for t in ev["tokens"]:
+            if t[0] == "d":
+                t[1] = t[1] + "x"
+                return True
+        return False
+    for s in rs[:40]:
+        if F.selftest_corruption(exe, s, out, mutate_first("fwd", drop_close), "one closing brace removed from a recorded output", TCFG, trace_module=MOD, must=False):
+            break
+    F.selftest_corruption(exe, rs[0], out, mutate_first("fwd", rename), "one declared class renamed in a recorded output", TCFG, trace_module=MOD)
+    out.need_selftest = True
+    return F.report("C19", tier, seed, out, t0, LEVEL,
+                    rule="a case = one set of qualified names (every set of <=3 names over 39 names built from identifiers a, ab, b at <=3 levels, emitted "
+                         "by TLC; random sets of up to 40 names, depth <=6) or one batch of type descriptions drawn from the grammar (class names, "
+                         "fundamental types, pointers, references, templates with arguments, function types, std:: and yorel:: entities), passed to the "
+                         "real generator; the written text is tokenised strictly and must be accepted with exactly the requested / generated class names; "
+                         "distinct_nontrivial = distinct scripts",
+                    assumptions=["cv-qualifiers and '(anonymous namespace)' are outside the grammar the property lists and are not generated",
+                                 "the expected names of an extraction run are the class names the stimulus grammar inserted (known by construction, not re-parsed)"],
+                    extra_cov={"name_sets_from_tlc": len(sets)})
+
+
+CHECKS = {"C19": check_C19, "C05": check_C05, "C18": check_C18, "C09": check_C09, "C15": check_C15, "C07": check_C07, "C10": check_C10, "C14": check_C14, "C04": check_C04, "C08": check_C08, "C01": check_C01, "C02": check_C02, "C03": check_C03, "C06": check_C06, "C17": check_C17}
